@@ -116,6 +116,14 @@ CASES = [
     ("index: unmapped characters get glyph 0 instead of the replacement", "mutation", MAP,
      ".unwrap_or(self.replacement_index)", ".unwrap_or(0)",
      ["index_src_eq_model"]),
+    ("chars: a range decodes to its start only (`start..=start`)", "mutation", MAP,
+     "                    start..=end\n                }\n                c => c..=c,\n            };\n\n            Some(range)\n        })\n        .flatten()",
+     "                    start..=start\n                }\n                c => c..=c,\n            };\n\n            Some(range)\n        })\n        .flatten()",
+     ["chars_unfold"]),
+    ("chars: `\\0` is no longer the range marker (`\\r` instead)", "mutation", MAP,
+     "            let range = match chars.next()? {\n                '\\0' => {\n                    let start = chars.next()?;\n                    let end = chars.next()?;\n\n                    start..=end",
+     "            let range = match chars.next()? {\n                '\\r' => {\n                    let start = chars.next()?;\n                    let end = chars.next()?;\n\n                    start..=end",
+     ["chars_unfold"]),
     ("contains: `any` with `!=`", "mutation", MAP,
      "self.chars().any(|v| v == c)", "self.chars().any(|v| v != c)",
      ["contains_src_eq_model"]),
